@@ -111,6 +111,8 @@ fn hist(kbx: &Sexp, ops: &[Sexp]) -> R<Sexp> {
                 },
                 "stop-now" => { stop_query(); Ok(a("ok")) },
                 "varid" => Ok(L(vec![a("varid"), A(get_var_id().to_string())])),
+                // the public set_var_id(): lets a history reach large variable ids without a long search
+                "set-id" => { set_var_id(ol[1].atom()?.parse::<usize>().map_err(|e| e.to_string())?); Ok(a("ok")) },
                 _ => Err(format!("hist op: {}", op.to_text())),
             }
         }));
